@@ -1195,7 +1195,7 @@ class Exec:
             if 'Array' in ty: v.arr = True
             elif 'Matrix' in ty or 'Vector' in ty: v.arr = False
         if isinstance(v, list) and '&' not in ty:
-            v = list(v)
+            v = v.clone() if hasattr(v, 'clone') else (list(v) if type(v) is list else v)      # by-value copy; model objects that ARE lists copy themselves
         if isinstance(v, int) and not isinstance(v, bool) and re.search(r'\b(double|float)\b', ty) and '*' not in ty:
             v = D(v)
         if vd.get('storageClass') == 'static':
@@ -1458,6 +1458,8 @@ class Exec:
                 return obj.eref(idx[0])
             i, j = _i(idx[0]), _i(idx[1])
             return Ref(lambda: obj.g(i, j), lambda v: obj.p(i, j, v))
+        if hasattr(obj, 'index_ref'):
+            return obj.index_ref(idx)
         if isinstance(obj, list):
             i = _i(idx[0])
             if not isinstance(i, int):
